@@ -1038,8 +1038,9 @@ def tstr(ctx, graph, text, label, detail=None):
         return r
     ctx.count("tstr:equal")
     ck = r["ok"]["checks"]
-    # `fuse_safe_prog`, `single_def`, `blocks_bound`: conclusion and emission premises of the theorem `fuse_produces_safe`
-    # (universal for `wf_graph` graphs); decided again per graph as a redundant cross-check of model and proof
+    # `fuse_safe` (text order per block) and `fuse_safe_prog` (emission order) are the conclusions of the theorems `fuse_text_safe`
+    # and `fuse_produces_safe` (universal for `wf_graph` graphs), `single_def` and `blocks_bound` their emission premises; all are
+    # decided again per graph as a redundant cross-check of model and proof
     for k in ("closed_order", "nodup_order", "closed_prog", "fuse_safe", "fuse_safe_prog", "single_def", "blocks_bound", "ref_ok", "same_trace", "same_ret"):
         if not ck[k]:
             ctx.count(f"checker:{k}:false")
